@@ -337,13 +337,13 @@ fn build_stmts(tier: &str, seed: u64) -> Vec<(usize, String)> {
 }
 
 fn watchdog_ms() -> u64 {
-    std::env::var("C14_WATCHDOG_MS").ok().and_then(|v| v.parse().ok()).unwrap_or(8000)
+    std::env::var("C14_WATCHDOG_MS").ok().and_then(|v| v.parse().ok()).unwrap_or(6000)
 }
 fn only_case() -> Option<u64> {
     std::env::var("C14_ONLY").ok().and_then(|v| v.parse().ok())
 }
 
-/// per-case watchdog of a child process: prints `H <id>` and exits when a case runs longer than 8 s
+/// per-case watchdog of a child process: prints `H <id>` and exits when a case runs longer than 6 s
 fn start_watchdog() -> (Arc<AtomicU64>, Arc<AtomicU64>) {
     let started = Arc::new(AtomicU64::new(0));
     let current = Arc::new(AtomicU64::new(u64::MAX));
@@ -472,12 +472,12 @@ fn run_shards(mode: &'static str, tier: &str, seed: u64) -> Vec<(Vec<(u64, Strin
                             }
                             "U" => usable.push((p[1].parse().unwrap(), p[2].to_string())),
                             "H" => {
-                                // a case that exceeded the per-case limit is run again ALONE with a 60 s limit
+                                // a case that exceeded the per-case limit is run again ALONE with a 30 s limit
                                 // before it is believed: on a loaded machine a heavy but terminating case
                                 // must not be reported as a hang
                                 let hid: u64 = p[1].parse().unwrap();
-                                if confirmed_hangs >= 2 {
-                                    // two hangs of this shard were already confirmed: believe the rest
+                                if confirmed_hangs >= 1 {
+                                    // a hang of this shard was already confirmed: believe the rest
                                     results.push((hid, "hang".to_string()));
                                     last_start = None;
                                     from = hid + 1;
@@ -485,7 +485,7 @@ fn run_shards(mode: &'static str, tier: &str, seed: u64) -> Vec<(Vec<(u64, Strin
                                 }
                                 let again = std::process::Command::new(&exe)
                                     .args([mode, &shard.to_string(), &nshards.to_string(), &hid.to_string(), "--tier", &tier, "--seed", &seed.to_string()])
-                                    .env("C14_WATCHDOG_MS", "60000")
+                                    .env("C14_WATCHDOG_MS", "30000")
                                     .env("C14_ONLY", hid.to_string())
                                     .output()
                                     .expect("spawn child");
@@ -517,7 +517,7 @@ fn run_shards(mode: &'static str, tier: &str, seed: u64) -> Vec<(Vec<(u64, Strin
                         from = id + 1;
                     }
                     restarts += 1;
-                    if restarts > 40 {
+                    if restarts > 12 {
                         break;
                     }
                 }
@@ -544,7 +544,7 @@ fn main() {
                 from the pool (35 values quick / 47 thorough: null, ints incl. +-2^63 / 2^64, rational, floats incl. NaN and inf, \
                 complex, strings incl. non-ASCII, lists, dicts with and without default, vectors, bytes incl. non-UTF-8, finite \
                 stream, closures, builtins, containers with an unhashable value nested inside, finite streams whose production raises part-way, advanced list-backed streams) plus sampled 3-tuples, called through Func::run under catch_unwind in child \
-                processes with a 8 s per-case watchdog (a case that exceeds it is re-run alone with a 60 s limit before it is reported as a hang) and a 6 GiB address-space limit; numeric-size builtins are skipped when an \
+                processes with a 6 s per-case watchdog (a case that exceeds it is re-run alone with a 30 s limit before it is reported as a hang; a shard gives up after 12 restarts) and a 6 GiB address-space limit; numeric-size builtins are skipped when an \
                 argument is astronomically large. Then try/catch containment through source programs, the statement sweep (62 statement templates x pool tuples, also in watchdogged child processes) and fault-injected \
                 generated programs. non-trivial = a call that raised or returned normally with >= 1 argument; distinct = \
                 distinct call text"
